@@ -37,7 +37,7 @@ ASSUMPTIONS = [
     "files are compared as raw bytes when the workspace path is identical, and as decoded feather rows / text with the workspace path masked otherwise",
     "a front-end crash or error exit is an outcome and is compared like any other",
 ]
-PROBES = ["nonempty_tables", "hashseed_varied", "dirent_varied", "heap_varied", "clock_varied", "env_varied", "env_ascii_locale", "install_via_symlink", "concurrent_process", "concurrent_context_switches", "stdout_reader_gone", "c_header_preprocessing", "ws_sibling", "ws_otherfs", "ws_relative", "ws_symlink",
+PROBES = ["nonempty_tables", "hashseed_varied", "dirent_varied", "heap_varied", "clock_varied", "env_varied", "env_ascii_locale", "install_via_symlink", "concurrent_process", "concurrent_context_switches", "stdout_reader_gone", "c_header_preprocessing", "optional_packages_hidden", "small_machine", "big_project", "legacy_encoded_source", "ws_sibling", "ws_otherfs", "ws_relative", "ws_symlink",
           "cwd_varied", "pyopt_varied", "ws_symlink_inner", "ws_named_externs", "ws_named_src", "ws_named_default", "ws_named_glob", "ws_named_braces", "ws_symlink_sub", "history_other_settings",
           "history_same_project", "history_other_project", "history_crashed_run", "multi_file_project", "corpus_project",
           "generated_project", "sub_run", "sub_semantic", "taint_phase_ran", "baseline_completed", "baseline_ended_early", "not_quiet", "taint_report_written"]
@@ -131,7 +131,17 @@ ENV_SETS = [{"TZ": "Asia/Tokyo"}, {"TZ": "America/St_Johns", "COLUMNS": "40", "L
             {"_umask": "077"}, {"_umask": "000", "TERM": "xterm-256color", "FORCE_COLOR": "1"}, {"_close_stdin": "1"},
             {"PYTHONUNBUFFERED": "1", "PYTHONFAULTHANDLER": "1"}, {"USER": "someone", "LOGNAME": "someone", "SHELL": "/bin/false"},
             # the build-tool variables of whoever starts lian, and a standard output whose reader has gone away (lian ... | head -1)
-            {"CC": "gcc", "CXX": "g++", "CFLAGS": "-O2 -DNDEBUG", "CPPFLAGS": "-DFROM_ENV=1"}, {"_stdout": "closed_pipe"}, {"_stdout": "closed_pipe"}]
+            {"CC": "gcc", "CXX": "g++", "CFLAGS": "-O2 -DNDEBUG", "CPPFLAGS": "-DFROM_ENV=1"}, {"_stdout": "closed_pipe"}, {"_stdout": "closed_pipe"},
+            # what is installed on the machine (optional packages an import may or may not find), and how big the machine is
+            {"_hide_modules": "charset_normalizer,chardet,cchardet,ujson,orjson,simplejson,psutil,numexpr,bottleneck,colorama,tqdm,rich"},
+            {"_hide_modules": "charset_normalizer,chardet,cchardet,ujson,orjson,simplejson,psutil,numexpr,bottleneck,colorama,tqdm,rich"},
+            {"_small_machine": "1"}, {"_small_machine": "1"}]
+# the sets that stand for whole classes of machines come first: the first variant of the env-forced trials takes them in turn
+# (positions 1 and 4 of the turn belong to the big-project trials, which run on the small machine)
+ENV_SETS.sort(key=lambda e_: 0 if "_hide_modules" in e_ else 1 if "_small_machine" in e_ else 2 if "_stdout" in e_ else 3 if "CC" in e_ else
+              4 if "TZ" in e_ and len(e_) == 1 else 5 if "PYTHONIOENCODING" in e_ else 6 if e_.get("LC_ALL") == "C" else 7)
+_seen_env = []
+ENV_SETS = [e_ for e_ in ENV_SETS if not (e_ in _seen_env or _seen_env.append(e_))]        # without duplicates, order kept
 HIST_CYCLE = [{"proj": "B"}, {"proj": "A"}, {"proj": "B"}, {"proj": "B", "crash_at": 15}, {"proj": "B", "settings": "alt"}]
 DIM_CYCLE = ["ws", "hashseed", "history", "ws", "dirent", "pyopt", "ws", "heap", "cwd", "clock", "env", "install", "concurrent"]
 
@@ -188,6 +198,12 @@ def generate(rng, k):
         fd0 = DIM_CYCLE[k.get("run_index", 0) % len(DIM_CYCLE)]
         shape = "case_collision" if fd0 == "dirent" and (k.get("run_index", 0) // len(DIM_CYCLE)) % 2 == 0 else None
         files = projgen.gen_project(rng, k["n_modules"], k["size"], shape=shape)
+        if fd0 == "env" and (k.get("run_index", 0) // len(DIM_CYCLE)) % 3 == 1:
+            # a project big enough to cross lian's size thresholds (> 10^4 GIR rows), front-end only
+            for g_ in range(14):
+                for p_, c_ in projgen.gen_project(rng, 4, 8).items():
+                    files[f"part{g_}/{p_}"] = c_
+            k["_big"] = True
         if fd0 == "env":
             # runs that vary the process environment: a flow whose report contains non-ASCII text although the source is ASCII
             first_ = sorted(files)[0]
@@ -227,6 +243,10 @@ def generate(rng, k):
     baseline = {"op": "variant", "hashseed": 0, "dirent": "natural", "heap_pad": 0, "ws": "same", "history": [], "clock": "natural", "env": {}, "install": "plain", "concurrent": None}
     ops.append(baseline)
     c_env_pending = bool(lang_op.get("c_preprocess"))
+    legacy_pending = any(os.path.basename(op["path"]).startswith("cp1251_") for op in ops if op["op"] == "file")
+    if k.pop("_big", False):
+        lang_op["sub"] = "lang"
+        lang_op["big"] = True
     all_ascii = all(op["content"].isascii() and op["path"].isascii() for op in ops if op["op"] in ("file", "otherfile"))
     for j in range(k["n_variants"] - 1):
         if j == 0:
@@ -244,7 +264,15 @@ def generate(rng, k):
             # header preprocessing: one variant runs with the build-tool variables of another tool chain
             ops[-1]["env"] = {"CC": "gcc", "CXX": "g++", "CFLAGS": "-O2 -DNDEBUG", "CPPFLAGS": "-DFROM_ENV=1"}
             c_env_pending = False
-        forced_ascii = j == 0 and DIM_CYCLE[ri % len(DIM_CYCLE)] == "env" and (ri // len(DIM_CYCLE)) % 2 == 0
+        if j == 0 and DIM_CYCLE[ri % len(DIM_CYCLE)] == "env":
+            ops[-1]["env"] = dict(ENV_SETS[(ri // len(DIM_CYCLE)) % len(ENV_SETS)])        # the environment sets in turn
+        if lang_op.get("big") and j == 0:
+            ops[-1]["env"] = {"_small_machine": "1"}
+        if legacy_pending and j == k["n_variants"] - 2 and not lang_op.get("big"):
+            # a source in a legacy encoding: one variant runs on a machine without the optional charset-detection packages
+            ops[-1]["env"] = {"_hide_modules": "charset_normalizer,chardet,cchardet"}
+            legacy_pending = False
+        forced_ascii = j == 0 and DIM_CYCLE[ri % len(DIM_CYCLE)] == "env" and (ri // len(DIM_CYCLE)) % 7 == 6
         if all_ascii and "env" in ops[-1] and ops[-1]["env"] and (rng.random() < 0.5 or forced_ascii):
             # a locale whose default text encoding is ASCII - only for projects that are pure ASCII themselves, because lian
             # decodes sources with the locale's encoding (see DESIGN, limits); the console keeps UTF-8
@@ -261,7 +289,8 @@ def _write_project(d, files):
     for op in files:
         p = os.path.join(d, op["path"])
         os.makedirs(os.path.dirname(p), exist_ok=True)
-        with open(p, "w", encoding="utf-8") as f:
+        enc = "cp1251" if os.path.basename(p).startswith("cp1251_") else "utf-8"      # a source file in a legacy 8-bit encoding
+        with open(p, "w", encoding=enc) as f:
             f.write(op["content"])
 
 
@@ -405,6 +434,10 @@ def execute(trace):
         other = [op for op in trace["ops"] if op["op"] == "otherfile"]
         lang = next((op["lang"] for op in trace["ops"] if op["op"] == "lang"), "python")
         quiet = next((op["quiet"] for op in trace["ops"] if op["op"] == "lang" and "quiet" in op), k.get("quiet", True))
+        if any(op.get("big") for op in trace["ops"] if op["op"] == "lang"):
+            hit("big_project")
+        if any(os.path.basename(f_["path"]).startswith("cp1251_") for f_ in files):
+            hit("legacy_encoded_source")
         c_preprocess = any(op.get("c_preprocess") for op in trace["ops"] if op["op"] == "lang")
         if c_preprocess:
             hit("c_header_preprocessing")
@@ -585,6 +618,10 @@ def execute(trace):
                 hit("env_varied")
                 if (v.get("env") or {}).get("PYTHONUTF8") == "0":
                     hit("env_ascii_locale")
+            if (v.get("env") or {}).get("_hide_modules"):
+                hit("optional_packages_hidden")
+            if (v.get("env") or {}).get("_small_machine"):
+                hit("small_machine")
             if (v.get("install") or "plain") != (base_v.get("install") or "plain"):
                 dims.append("install")
                 hit("install_via_symlink")
